@@ -12,8 +12,9 @@ What is PROVED here: (a) hash-seed independence of the model at every accounted 
 permutation of the iteration order; (b) order-independence of the lookup views, of the verdict shape and of the
 denotation of declarations under permutation of key-distinct definitions.
 What is NOT proved (observed by `harness/src/bin/c17.rs`, stream O): that fresh processes (different `RandomState`
-seeds) write byte-identical files / diagnostics, that the library entry points produce the CLI's bytes, and that the
-real checker / printers have the shape assumed by `diagnostics` / `declOf`.
+seeds) write byte-identical files / diagnostics, and that the library entry points produce the CLI's bytes.
+That the CONCRETE checker / printer models (not just the abstract shape `diagnostics` / `declOf` used here) are
+invariant under permutation of definitions is proved in `Props/C17Concrete.lean`.
 -/
 namespace NitroVerif.Determinism
 open NitroVerif.Gql
@@ -329,10 +330,16 @@ OPEN — carried by K/O only (observed by harness/src/bin/c17.rs, not proved):
   schema, `--output-format json` stdout, diagnostics of `check`): the theorems above show that the modelled results
   at the hash-iteration sites do not depend on the iteration order; that the process has no OTHER source of
   nondeterminism (allocator addresses, time, environment, third-party crates) is observed on N fresh processes.
-* the real `check_type_system_document` / `check_operation_document` are of the shape `diagnostics chk view defs`
-  (per-definition rules over a lookup view) and the real printers of the shape `decls` — by reading; the consequence
-  (verdict and per-alias denotation invariant under shuffling definitions inside and across files, and renaming
-  files) is observed on the real CLI.
+* (moved to theorems, wave 3 — `Props/C17Concrete.lean`) that the checker / printers are of the shape `diagnostics chk
+  view defs` / `decls` is no longer "by reading": permutation invariance is proved of the CONCRETE executable models
+  `CheckTs.checkSchema`, `CheckOp.checkOp` (schema side and document side), `SchemaDecls.schemaFile`,
+  `OpTypes.implTree`/`toTs`/`opDecls`, with kernel-checked witnesses for every side condition. What is still carried
+  by K/O only: that these models compute what the real code computes (K streams of C03/C04/C05 for the checkers,
+  C09/C10 for the schema declaration file, C01/C02 for the operation types — other properties' harnesses), and the
+  consequence on the real CLI (verdict and per-alias denotation invariant under shuffling definitions inside and
+  across files, and renaming files: O stream of harness/src/bin/c17.rs). Not modelled, hence not proved: the
+  resolvers file and the server schema file under permutation (observed), `additional_info` of diagnostics and
+  the rendered message text (the models carry kind + main position).
 * the site list is complete only as far as the syntactic scan sees (name-based; documented in translate/hash_sites.py).
 -/
 
